@@ -705,6 +705,17 @@ func (e *Enc) mergeStates(ins []*State, conds []string) *State {
 			out.Defers = append([]deferred(nil), s.Defers...)
 		}
 	}
+	for _, s := range ins {
+		same := len(s.Defers) == len(out.Defers)
+		for i := 0; same && i < len(s.Defers); i++ {
+			same = s.Defers[i].instr == out.Defers[i].instr
+		}
+		if !same {
+			// a defer registered on some paths only: running "the" list at the
+			// join would run it on paths that never registered it
+			panic(unsupported{"defer registered on some of the paths reaching a join only"})
+		}
+	}
 	return out
 }
 
